@@ -1,5 +1,7 @@
 import CircBuf.Lemmas.Tie.PushPop
+import CircBuf.Lemmas.Tie.Remove
 import CircBuf.Lemmas.Tie.Swap
+import CircBuf.Lemmas.Tie.Truncate
 import CircBuf.Props.C20
 /-!
 # C20 — O(1) operations touch O(1) slots: the theorems of `Props/C20.lean`, restated about the *translated source*
@@ -41,5 +43,22 @@ theorem C20_swap_src (s : Sys) (i j : Nat) (h : Inv s.buf) (hi : i < s.buf.size)
   first
   | (rw [tie_swap _ _ s h]; exact C20_swap s i j h hi hj)
   | (have h0 := C20_swap s i j h hi hj; unfold Frames at h0 ⊢; rw [tie_swap _ _ s h]; exact h0)
+
+theorem C20_remove_src (s : Sys) (index : Nat) (h : Inv s.buf) (hidx : index < s.buf.size) :
+    ∃ r b', Gen.remove index s = (.ok r, { s with buf := b' }) ∧ b'.start = s.buf.start ∧
+      ∀ i, i < index → b'.items (phys s.buf.start s.buf.cap i) = s.buf.items (phys s.buf.start s.buf.cap i) := by
+  first
+  | (rw [tie_remove _ s h]; exact C20_remove s index h hidx)
+
+theorem C20_truncate_src (s : Sys) (rs re : Nat) (h : Inv s.buf) (hf : s.faults.drop = 0)
+    (h1 : rs < re) (h2 : re ≤ s.buf.size) (h3 : rs = 0 ∨ re = s.buf.size) :
+    ∃ s', Gen.drop_range (rs, re) s = (.ok (), s') ∧ s'.buf.items = s.buf.items := by
+  first
+  | (rw [tie_drop_range _ _ s h]; exact C20_truncate s rs re h hf h1 h2 h3)
+
+theorem C20_make_contiguous_src (s : Sys) (h : Inv s.buf) (hc : s.buf.start + s.buf.size ≤ s.buf.cap) :
+    ∃ v, Gen.make_contiguous s = (.ok v, s) := by
+  first
+  | (rw [tie_make_contiguous s h]; exact C20_make_contiguous s h hc)
 
 end CircBuf
